@@ -317,6 +317,22 @@ func init() {
 					tick("+1s"), tick("lease+"),
 				},
 			},
+			{
+				// a sibling that does not receive every message (filter) or that was
+				// created later: a message it never had counts as acknowledged on it
+				ID: "C13/filtered-and-late-sibling", Prop: "C13", Depth: d(tier, 6, 7), Drain: true,
+				Cfg: model.Cfg{Topics: []string{"T0"}, Subs: []model.SubCfg{
+					{Name: "S0", Topic: "T0"},
+					{Name: "S1", Topic: "T0", Filter: fX},
+					{Name: "S2", Topic: "T0"},
+				}, Lazy: []string{"S2"}},
+				Alphabet: []model.Op{
+					pub1("T0", "", 0), pub1("T0", "", 1), mkSub("S2"),
+					pull("S1", 10), ack("S1", "newest"), ack("S1", "oldest"),
+					pull("S0", 10), ack("S0", "all"),
+					snap("S1", "N1"), snap("S2", "N2"), seekS("S0", "N1"), seekS("S0", "N2"),
+				},
+			},
 		}
 	}
 
